@@ -246,11 +246,18 @@ Theorem C14_namespace_path_is_a_set : forall path,
   (forall d, In d (map pdir path) <-> In d (map pdir (path_dirs path))).
 Proof. exact path_dirs_set. Qed.
 
-(* ... hence every module file of every directory is scanned exactly once
-   ([path_ok]: what the file system guarantees about the listings) ... *)
+(* ... [fix f71dd92] of the files found there ONE per module name is scanned
+   ([path_modules]; files of the same name in other directories are shadowed,
+   Python imports the name from one of them only): no file twice, no name twice,
+   nothing foreign, every module name represented; when no name occurs in two
+   directories these are all the files ([path_ok]: what the file system
+   guarantees about the listings) ... *)
 Theorem C14_namespace_modules_once : forall path, path_ok path ->
   NoDup (map file (path_modules path)) /\
-  (forall m, In m (path_modules path) <-> in_path path m).
+  NoDup (map mname (path_modules path)) /\
+  (forall m, In m (path_modules path) -> in_path path m) /\
+  (forall m, in_path path m -> exists m', In m' (path_modules path) /\ mname m' = mname m) /\
+  (names_distinct path -> forall m, in_path path m -> In m (path_modules path)).
 Proof. exact path_modules_once. Qed.
 
 (* ... an entry that names a directory listed earlier changes NOTHING: same
@@ -262,19 +269,44 @@ Theorem C14_namespace_repeated_directory_ignored : forall fms pkgname pre po mid
 Proof. exact namespace_repeated_directory_ignored. Qed.
 
 (* ... and "once each" holds for implicit packages: whenever construction
-   succeeds no constructor call is repeated, a class found in a module of one of
-   the directories is called iff it defines MODE_NAME and is not DISABLED, and
-   nothing else is called. *)
+   succeeds no constructor call is repeated, a class of a scanned file is called
+   iff it defines MODE_NAME and is not DISABLED, and nothing else is called. *)
 Theorem C14_namespace_instantiated_once : forall fms pkgname path r,
   init fms pkgname (ImportedNamespace path) = Built r ->
   path_ok path ->
   (forall m, in_path path m -> NoDup (map cname (classes m))) ->
   NoDup (ctor_calls r) /\
-  (forall m c, in_path path m -> mname m <> "__init__" -> import_fails m = false -> In c (classes m) ->
+  (forall m c, In m (path_modules path) -> mname m <> "__init__" -> import_fails m = false -> In c (classes m) ->
      (In (file m, cname c) (ctor_calls r) <-> is_needed c = true)) /\
   (forall x, In x (ctor_calls r) ->
-     exists m c, in_path path m /\ In c (classes m) /\ is_needed c = true /\ x = (file m, cname c)).
+     exists m c, In m (path_modules path) /\ In c (classes m) /\ is_needed c = true /\ x = (file m, cname c)).
 Proof. exact namespace_instantiated_once. Qed.
+
+(* [D15, fix f71dd92] Files of the same name in several directories of
+   __path__ ([name_determines_module]: they all stand for the ONE module Python
+   imports under that name): of all the files bearing the name of an importable
+   module exactly one, m', is used; every class of the module with MODE_NAME and
+   not DISABLED is called through m' -- once, by NoDup above -- and through no
+   other file of that name: no second round of constructor calls, hence no
+   "Duplicate name" and no phantom mode. *)
+Theorem C14_namespace_one_file_per_name : forall fms pkgname path r,
+  init fms pkgname (ImportedNamespace path) = Built r ->
+  path_ok path -> name_determines_module path ->
+  (forall m, in_path path m -> NoDup (map cname (classes m))) ->
+  forall m, in_path path m -> mname m <> "__init__" -> import_fails m = false ->
+  exists m', In m' (path_modules path) /\ mname m' = mname m /\
+    forall c, In c (classes m) -> is_needed c = true ->
+      In (file m', cname c) (ctor_calls r) /\
+      (forall n, in_path path n -> mname n = mname m -> In (file n, cname c) (ctor_calls r) -> n = m').
+Proof. exact namespace_one_file_per_name. Qed.
+
+(* ... and a file whose name a directory scanned earlier already has changes
+   NOTHING: same outcome, calls, modes, chooser as without that file *)
+Theorem C14_namespace_shadowed_file_ignored : forall fms pkgname a d pre m' post,
+  pdir a <> d -> (exists m, In m (pfiles a) /\ mname m = mname m') ->
+  init fms pkgname (ImportedNamespace [a; mkPortion d (pre ++ m' :: post)]) =
+  init fms pkgname (ImportedNamespace [a; mkPortion d (pre ++ post)]).
+Proof. exact namespace_shadowed_file_ignored. Qed.
 
 (* ---- selection ---------------------------------------------------- *)
 
@@ -634,6 +666,56 @@ Proof.
     eexists. split; [vm_compute; reflexivity|]. vm_compute. auto.
 Qed.
 
+(* D15: /a/p and /b/p both have a left.py; "p.left" is one module (class L):
+   it is scanned once, through the file met first -- without FMS no "Duplicate
+   name", with FMS no phantom "L_/b/p/left.py"; the unfixed loop (no
+   [unique_names]) raised / offered the phantom *)
+Definition ex_po_b2 : portion :=
+  mkPortion "/b/p" [mkMod "left" "/b/p/left.py" false [mkCls "L" (Some "Left") false true false];
+                    mkMod "mid" "/b/p/mid.py" false [mkCls "M" (Some "Mid") false false false]].
+
+Example ex_same_name_in_two_directories :
+  path_ok [ex_po_a; ex_po_b2] /\ name_determines_module [ex_po_a; ex_po_b2] /\ ~ names_distinct [ex_po_a; ex_po_b2] /\
+  map file (path_modules [ex_po_a; ex_po_b2]) = ["/a/p/left.py"; "/a/p/right.py"; "/b/p/mid.py"] /\
+  map file (path_modules [ex_po_b2; ex_po_a]) = ["/b/p/left.py"; "/b/p/mid.py"; "/a/p/right.py"] /\
+  init false "p" (ImportedNamespace [ex_po_a; ex_po_b2]) = init false "p" (ImportedNamespace [ex_po_a; ex_po_b]) /\
+  (exists r, init true "p" (ImportedNamespace [ex_po_a; ex_po_b2]) = Built r /\
+     ctor_calls r = [("/a/p/left.py", "L"); ("/a/p/right.py", "R"); ("/b/p/mid.py", "M")] /\
+     map fst (modes r) = ["Left"; "Right"; "Mid"]) /\
+  discover false (PkgPresent (path_files [ex_po_a; ex_po_b2])) =
+    Raised (ErrDuplicate "Left" "/b/p/left.py") [("/a/p/left.py", "L"); ("/a/p/right.py", "R"); ("/b/p/left.py", "L")] /\
+  (exists r, discover true (PkgPresent (path_files [ex_po_a; ex_po_b2])) = Built r /\
+     map fst (modes r) = ["Left"; "Right"; "L_/b/p/left.py"; "Mid"]).
+Proof.
+  assert (Hin : forall m, in_path [ex_po_a; ex_po_b2] m ->
+            m = mkMod "left" "/a/p/left.py" false [mkCls "L" (Some "Left") false true false] \/
+            m = mkMod "right" "/a/p/right.py" false [mkCls "R" (Some "Right") false false false] \/
+            m = mkMod "left" "/b/p/left.py" false [mkCls "L" (Some "Left") false true false] \/
+            m = mkMod "mid" "/b/p/mid.py" false [mkCls "M" (Some "Mid") false false false]).
+  { intros m [po [[Hp|[Hp|[]]] Hm]]; subst po; simpl in Hm; intuition. }
+  split.
+  - split; [|split].
+    + intros a b Ha Hb. simpl in Ha, Hb.
+      destruct Ha as [Ha|[Ha|[]]], Hb as [Hb|[Hb|[]]]; subst; simpl; intros H; try reflexivity; discriminate.
+    + intros a b m n Ha Hb. simpl in Ha, Hb.
+      destruct Ha as [Ha|[Ha|[]]], Hb as [Hb|[Hb|[]]]; subst; simpl; intros Hm Hn H; try reflexivity;
+        repeat (destruct Hm as [Hm|Hm]; [subst m|]); try contradiction;
+        repeat (destruct Hn as [Hn|Hn]; [subst n|]); try contradiction; discriminate.
+    + intros a Ha. simpl in Ha. destruct Ha as [Ha|[Ha|[]]]; subst; simpl;
+        repeat constructor; simpl; intuition discriminate.
+  - split.
+    { intros m n Hm Hn. apply Hin in Hm. apply Hin in Hn.
+      destruct Hm as [Hm|[Hm|[Hm|Hm]]], Hn as [Hn|[Hn|[Hn|Hn]]]; subst; simpl; intros H; try (split; reflexivity); discriminate. }
+    split.
+    { intros H.
+      assert (E : mkMod "left" "/a/p/left.py" false [mkCls "L" (Some "Left") false true false] =
+                  mkMod "left" "/b/p/left.py" false [mkCls "L" (Some "Left") false true false]); [|discriminate].
+      apply H; [exists ex_po_a; simpl; auto|exists ex_po_b2; simpl; auto|reflexivity]. }
+    split; [reflexivity|]. split; [reflexivity|]. split; [reflexivity|]. split.
+    { eexists. split; [vm_compute; reflexivity|]. vm_compute. auto. }
+    split; [reflexivity|]. eexists. split; [vm_compute; reflexivity|]. vm_compute. auto.
+Qed.
+
 Print Assumptions C14_constructor_calls.
 Print Assumptions C14_instantiated_exactly.
 Print Assumptions C14_raise_calls_prefix.
@@ -662,6 +744,8 @@ Print Assumptions C14_namespace_path_is_a_set.
 Print Assumptions C14_namespace_modules_once.
 Print Assumptions C14_namespace_repeated_directory_ignored.
 Print Assumptions C14_namespace_instantiated_once.
+Print Assumptions C14_namespace_one_file_per_name.
+Print Assumptions C14_namespace_shadowed_file_ignored.
 Print Assumptions C14_selection_dashboard.
 Print Assumptions C14_selection_chooser.
 Print Assumptions C14_lifecycle.
